@@ -244,6 +244,8 @@ fn rep_sets() -> Vec<(String, TileMap)> {
 		}
 	}
 	v.push(("full z3 with payloads shared by many coordinates".to_string(), shared));
+	// rows and columns whose numbers change their digit count (9 -> 10): listed by name they are not in numeric order
+	v.push(("dense 6x8 at z4, columns 8..13 and rows 6..13 (names cross a digit boundary)".to_string(), tilesets::family_dense(4, 8, 6, 6, 8, 9)));
 	// 2 KiB tiles: a box narrower than the block skips more than the reader's 32 KiB read-chunk gap per row
 	v.push(("dense 44x10 at z9 with 2 KiB tiles (read-chunk splits)".to_string(), tilesets::family_dense(9, 210, 250, 44, 10, 2048)));
 	v
@@ -292,7 +294,7 @@ pub fn vpl_sources(mem: &[MemSource]) -> Vec<(String, String, Vec<u8>)> {
 
 pub fn run(ctx: Arc<Ctx>) {
 	ctx.rule(
-		"sources: 5 container readers x 8 representative tile sets written by the repository's writers (incl. payloads shared by many coordinates of one block); PMTiles (run lengths, shared offsets, leaf directories) and versatiles containers from the independent encoders, tar archives of another tool with hard-link members, a directory tree with zero-padded aliases and mixed spellings of one format; a reader with the trait's default box stream whose lookups answer after uneven delays; TilesConvertReader x 4 flag combinations x {unrestricted, restricted} over a MemSource and a versatiles file, and recompressing (gzip -> gzip/brotli/none, with and without force; none -> gzip/brotli over a source that holds zero-length tiles); \
+		"sources: 5 container readers x 9 representative tile sets written by the repository's writers (incl. payloads shared by many coordinates of one block); PMTiles (run lengths, shared offsets, leaf directories) and versatiles containers from the independent encoders, tar archives of another tool with hard-link members, a directory tree with zero-padded aliases and mixed spellings of one format; a reader with the trait's default box stream whose lookups answer after uneven delays; TilesConvertReader x 4 flag combinations x {unrestricted, restricted} over a MemSource and a versatiles file, and recompressing (gzip -> gzip/brotli/none, with and without force; none -> gzip/brotli over a source that holds zero-length tiles); \
 		 pipeline operations and nestings over MemSources, from_debug and a real versatiles file. boxes: all boxes at z<=2 (quick) / z<=3 (thorough), every box with corners from {0,255,256,511,cov_min(-1),cov_max(+1),max} at the sets' high zoom levels, all empty encodings at z 0,1,7,8,9,31. \
 		 oracle: multiset of streamed (coord, bytes) = lookups over the box. non-trivial = (source, box) pairs whose expected result is non-empty",
 	);
